@@ -160,6 +160,20 @@ Theorem cancelled_holder_lock_recovers : forall t0 a cs pms td t,
 Proof. exact holder_cancelled_recovers. Qed.
 Print Assumptions cancelled_holder_lock_recovers.
 
+(* What may end a holder's heartbeat loop: only the cancellation of the holder's own context and Unlock on the
+   holder's own lock object.  Whatever other calls are made on the lock meanwhile — failing TryLock, Lock whose
+   deadline expires, LockWithTimeout that times out, IsStale, ReleaseIfStale, on the same object or through other
+   objects, and Unlock through another object — the loop is not ended ([loop_end] = None), so the hold is a
+   [holder_trace] that keeps growing and every theorem above about live holders applies unchanged.  The
+   correspondence (CHolder cases) checks the implementation against exactly this: after such calls the recorded
+   holder must not fall silent. *)
+Theorem heartbeat_ended_only_by_own_cancel_or_unlock : forall calls,
+  (forall t, loop_end calls = Some t ->
+     exists c, In c calls /\ api_at c = t /\ (api_k c = KCancelOwn \/ (api_k c = KUnlock /\ api_same c = true))) /\
+  (Forall (fun c => api_k c <> KCancelOwn /\ (api_k c = KUnlock -> api_same c = false)) calls -> loop_end calls = None).
+Proof. intros calls. split; [intros t; apply loop_end_only_own | apply loop_not_ended_by_others]. Qed.
+Print Assumptions heartbeat_ended_only_by_own_cancel_or_unlock.
+
 (* ---- non-vacuity: the hypotheses are satisfiable and the conclusions are not trivially true ---- *)
 
 Definition ex_acq := mkAcq (20000) (150000) (40000).                        (* 20 us, 150 us, 40 us *)
